@@ -256,3 +256,16 @@ def rand_field(rng, mesh, nvdim=None, dtype=None, vdims="random", valid="random"
         kw["vdim_mapping"] = mapping
     f = df.Field(mesh, nvdim=nvdim, value=arr, valid=val.copy(), **kw)
     return f, arr, val
+
+
+def rand_bc(rng, dim_names, p_none=0.5):
+    """A valid boundary-condition string: '', 'neumann', 'dirichlet' or a set of
+    single-character dimension names (only those can be periodic)."""
+    if rng.random() < p_none:
+        return ""
+    single = [d for d in dim_names if len(d) == 1]
+    opts = ["neumann", "dirichlet"]
+    if single:
+        k = int(rng.integers(1, len(single) + 1))
+        opts += ["".join(rng.permutation(single)[:k])] * 3
+    return pick(rng, opts)
